@@ -15,16 +15,20 @@ EditsOf(r, path) == LET idx == SelectSeq([k \in 1..Len(r.announced) |-> k], LAMB
                     [j \in 1..Len(idx) |-> AsEdit(r.announced[idx[j]])]
 LangsOf(r, path) == { r.announced[k].lang : k \in { j \in 1..Len(r.announced) : r.announced[j].path = path } }
 
+\* up to 12 announced edits per file the order-free statement is used (--json lists findings rule by rule in an
+\* order that varies from run to run); beyond that the announced order is taken as the order of application
+CountFor(f, es) == IF Len(es) <= 12 THEN AcceptedCount(f.before, es, f.after)
+                   ELSE IF f.after = FinalP(f.before, es) THEN Len(AcceptAll(es, 1, <<>>)) ELSE -1
 FileReasons(r, f) ==
     LET es == EditsOf(r, f.path) IN
-    IF f.after = FinalP(f.before, es) THEN {}
+    IF CountFor(f, es) >= 0 THEN {}
     ELSE IF es = <<>> THEN {<<"file-without-announced-edits-changed", f.path>>}
     ELSE {<<"file-differs-from-announced-edits", f.path>>}
 
 Reasons(r) ==
     UNION { FileReasons(r, r.files[k]) : k \in 1..Len(r.files) }
-    \cup (LET total == FoldLeft(LAMBDA acc, f : acc + Len(AcceptAll(EditsOf(r, f.path), 1, <<>>)), 0, r.files) IN
-          IF r.applied = total THEN {} ELSE {<<"applied-count", "">>})
+    \cup (LET total == FoldLeft(LAMBDA acc, f : acc + (IF CountFor(f, EditsOf(r, f.path)) < 0 THEN 0 ELSE CountFor(f, EditsOf(r, f.path))), 0, r.files) IN
+          IF r.applied = total \/ \E k \in 1..Len(r.files) : CountFor(r.files[k], EditsOf(r, r.files[k].path)) < 0 THEN {} ELSE {<<"applied-count", "">>})
     \cup (IF r.codes[2] = 0 THEN {} ELSE {<<"update-all-exit-status", "">>})
 
 Drift(r) ==
